@@ -347,6 +347,16 @@ theorem no_lost_wakeup (cap : Nat) (hcap : 0 < cap) (ls : List BLabel) (b : BSta
     · exact absurd hq h
     · omega
 
+/-- **The re-test after waking is necessary** (why the code loops `while self._count == 0: wait()`): between the
+`notify()` of a release and the woken thread taking the lock again a third thread may take the slot, and the woken
+thread then finds the count at zero — it must wait again, not proceed (the change in `seeded/C10-…-r8` replaced the
+loop by a single `wait()`; the count went to −1). -/
+theorem barging_makes_retest_necessary :
+    ∃ b, brun (BState.init 1) [.acquire 0 0, .acquire 1 0, .release 0 0, .acquire 2 0] = some b ∧
+      (1, 0) ∈ b.notified ∧ b.sws.count = 0 ∧
+      (bstep b (.wake 1 0)).map (·.2) = some .wouldBlock := by
+  refine ⟨_, rfl, ?_, ?_, ?_⟩ <;> decide
+
 /-! ### non-vacuity: concrete histories -/
 
 /-- D15's history (capacity 3: acquire ×3; release 1, 1, 0; acquire; release 3, 2) on the
